@@ -81,9 +81,18 @@ Definition persist (s : st) : list task := tasks s.
 Definition reload (ts : list task) (lg : list (N * bool)) : st := mkSt ts [] lg.
 Definition restart (s : st) : st := reload (persist s) (log s).
 
-Inductive event := EEnsure | EFinish (id : N) | ERestart.
+(* TaskRunner.Stop (graceful stop): every tomb is killed and waited for. A handler that honours its tomb returns a plain
+   cancellation error; because the runner is stopping that error counts as Retry (the conversion in the goroutine of run), in
+   BOTH directions: a task in Doing stays Doing, a task in Undoing stays Undoing; a task that had been aborted while running
+   (Abort) goes through tryUndo as for any Retry. Nothing is running afterwards. *)
+Definition stop_task (c : cfg) (rs : list N) (t : task) : task :=
+  if mem (t_id t) rs && (norm (t_status t) =? 5)
+  then mkT (t_id t) (if mem (t_id t) (no_undo c) then 1 else 6) (t_waits t) else t.
+Definition stop (c : cfg) (s : st) : st := mkSt (map (stop_task c (running s)) (tasks s)) [] (log s).
+
+Inductive event := EEnsure | EFinish (id : N) | ERestart | EStop.
 Definition step (c : cfg) (s : st) (e : event) : st :=
-  match e with EEnsure => ensure c s | EFinish id => finish c id s | ERestart => restart s end.
+  match e with EEnsure => ensure c s | EFinish id => finish c id s | ERestart => restart s | EStop => stop c s end.
 Definition run_events (c : cfg) (s : st) (evs : list event) : st := fold_left (step c) evs s.
 
 (* Ensure passes repeated until nothing more starts or changes (what one pass does depends on the order in which it
@@ -118,8 +127,12 @@ Inductive restart_obs := RObs (j : nat) (payload final_restart final_baseline : 
                               (recorded persisted : list N).
 (* [releases]: one entry per handler start of the run without restart: the task, and whether the step the handler recorded
    before releasing the state lock was in the last payload at the moment it had released it (a crash right there) *)
+(* a graceful stop after the first j actions (TaskRunner.Stop with the handlers in flight honouring their tombs), then
+   ReadState of the last payload + fresh runner: statuses before the stop (= at the crash point j), statuses in the payload after
+   the stop, final statuses of that run, final statuses of the baseline run, handler starts after the restart *)
+Inductive stop_obs := SObs (j : nat) (before after final_stop final_baseline : list (N * N)) (dos undos : list (N * N)).
 Inductive case := Case (graph : list (N * list N)) (c : cfg) (acts : list action) (final : list (N * N)) (rs : list restart_obs)
-                       (releases : list (N * bool)).
+                       (releases : list (N * bool)) (stops : list stop_obs).
 
 Definition do_action (c : cfg) (s : st) (a : action) : st :=
   match a with AE => ensureF c s | AF id => finish c id s end.
@@ -136,7 +149,7 @@ Definition init_tasks (graph : list (N * list N)) (sts : list (N * N)) : list ta
 
 Definition mismatch (k : case) : bool :=
   match k with
-  | Case graph c acts final rs releases =>
+  | Case graph c acts final rs releases stops =>
       let s0 := mkSt (init_tasks graph []) [] [] in
       let fuel := settle_fuel (tasks s0) in
       negb (plist_eqb (statuses (settle fuel c s0)) final
@@ -150,7 +163,17 @@ Definition mismatch (k : case) : bool :=
                                      && plist_eqb (statuses (settle fuel c sj)) finb
                                      && forallb (fun g => (count (fst g) false (log sr) =? lookup dos (fst g))
                                                           && (count (fst g) true (log sr) =? lookup undos (fst g))) graph
-                                 end) rs)
+                                 end) rs
+            && forallb (fun r => match r with
+                                 | SObs j before after fins finb dos undos =>
+                                     let sj := fold_left (do_action c) (firstn j acts) s0 in
+                                     let st := stop c sj in
+                                     let sr := settle fuel c (mkSt (tasks st) [] []) in
+                                     plist_eqb (statuses sj) before && plist_eqb (statuses st) after
+                                     && plist_eqb (statuses sr) fins && plist_eqb (statuses (settle fuel c sj)) finb
+                                     && forallb (fun g => (count (fst g) false (log sr) =? lookup dos (fst g))
+                                                          && (count (fst g) true (log sr) =? lookup undos (fst g))) graph
+                                 end) stops)
   end.
 
 (* the property on the implementation's observed behaviour, without the model's transition functions *)
@@ -158,7 +181,7 @@ Definition do_finished (s : N) : bool := negb ((s =? 2) || (s =? 3) || (s =? 0))
 Definition undo_finished (s : N) : bool := (s =? 8) || (s =? 1) || (s =? 9).
 Definition monitor_fail (k : case) : bool :=
   match k with
-  | Case graph c acts final rs releases =>
+  | Case graph c acts final rs releases stops =>
       negb (forallb (fun r => match r with
                               | RObs j payload finr finb dos undos recorded persisted =>
                                   (* same outcome as the run without restart; nothing lost or duplicated *)
@@ -175,7 +198,20 @@ Definition monitor_fail (k : case) : bool :=
                                        && (negb (ps =? 7) || (1 <=? lookup undos id))) graph
                               end) rs
             (* a crash inside a handler's unlocked section finds what the handler had recorded *)
-            && forallb (fun r => snd r) releases)
+            && forallb (fun r => snd r) releases
+            (* a graceful stop is no different from a crash: same outcome, a stopped handler leaves its task in
+               Doing / Undoing (Abort: Undo or Hold), nothing finished is redone, what was in flight is run again *)
+            && forallb (fun r => match r with
+                                 | SObs j before after fins finb dos undos =>
+                                     plist_eqb fins finb && nlist_eqb (map fst after) (map fst graph)
+                                     && forallb (fun g =>
+                                          let id := fst g in let b := lookup before id in let a := lookup after id in
+                                          ((a =? b) || ((b =? 5) && ((a =? 6) || (a =? 1))))
+                                          && (negb (do_finished a) || (lookup dos id =? 0))
+                                          && (negb (undo_finished a) || (lookup undos id =? 0))
+                                          && (negb (a =? 3) || (1 <=? lookup dos id))
+                                          && (negb (a =? 7) || (1 <=? lookup undos id))) graph
+                                 end) stops)
   end.
 
 (* ------------------------------------------------------------------ the persistence assumption, made explicit *)
